@@ -191,7 +191,7 @@ def h18_declaration(S):
     from repid.converter import BasicConverter, PydanticConverter
     from repid.dependencies import Depends
 
-    which = S.pick("case", 5)
+    which = S.pick("case", 7)
     conv = [BasicConverter, PydanticConverter][S.pick("converter", 2)]
 
     async def leaf():
@@ -212,6 +212,14 @@ def h18_declaration(S):
             async def prov2(x: int):                        # provider with a non-dependency argument without default
                 ...
             Depends(prov2)
+        elif which == 5:
+            async def prov5(*xs: Annotated[int, dep]):       # dependency in *args of a provider
+                ...
+            Depends(prov5)
+        elif which == 6:
+            async def prov6(**kw: Annotated[int, dep]):      # dependency in **kwargs of a provider
+                ...
+            Depends(prov6)
         elif which == 3:
             async def prov3(x: int = 3, *, y: Annotated[int, dep]):   # supported: default + keyword-only dependency
                 return x + y
@@ -224,10 +232,69 @@ def h18_declaration(S):
         err = e
     S.cover("declared")
     S.tag("case", which)
-    if which in (0, 1, 2):
+    if which in (0, 1, 2, 5, 6):
         S.check("unsupported-declaration-rejected-at-declaration", err is not None)
     else:
         S.check("supported-declaration-accepted", err is None, info=repr(err))
+
+
+def h18_special_values(S):
+    """A provider's value is passed on as it is (also an exception instance); a provider that answers the
+    message itself ends the execution: the actor is not invoked and nothing more is reported."""
+    import repid.data._parameters as P
+    from repid import MessageDependency
+    from repid._processor import _Processor
+    from repid.connections.in_memory.utils import Message as MemMessage
+    from repid.converter import BasicConverter
+    from repid.data._key import RoutingKey
+    from repid.dependencies import Depends
+
+    which = S.pick("case", 3)
+    nested = S.flag("nested_under_another_provider")
+    received = []
+    out = {}
+    marker = KeyError("a value, not a failure")
+
+    async def returns_exception():
+        return marker
+
+    async def answers_itself(m: MessageDependency):
+        await m.ack()
+
+    async def plain():
+        return 5
+
+    leaf = [returns_exception, answers_itself, plain][which]
+    dep = Depends(leaf)
+    if nested:
+        async def outer(x: Annotated[object, dep]):
+            return x
+        dep = Depends(outer)
+
+    async def actor(d: Annotated[object, dep]):
+        received.append(d)
+
+    async def main(loop):
+        w = World()
+        await w.open(record=True)
+        key = RoutingKey(topic="job", queue="default", id_="m1")
+        params = P.Parameters(retries=P.RetriesProperties(max_amount=1, already_tried=0), timestamp=P.datetime.now())
+        w.broker.queues["default"].processing.add(MemMessage(key, "", params))
+        proc = _Processor(w.conn)
+        await proc.process(mk_actor(actor, converter=BasicConverter, retry_policy=lambda retry_number=1: real_timedelta(hours=1)), key, "", params)
+        out["ops"] = [x["op"] for x in w.rec.calls]
+
+    run_async(main, clock=PinnedClock(T0))
+    S.cover("special-values")
+    S.tag("case", ["returns-exception-instance", "answers-the-message", "plain"][which])
+    if which == 0:
+        S.check("exception-instance-is-a-value", received == [marker] or (len(received) == 1 and received[0] is marker), info=f"received={received} ops={out['ops']}")
+        S.check("acked", out["ops"] == ["ack"], info=str(out["ops"]))
+    elif which == 1:
+        S.check("actor-not-invoked-after-the-provider-answered", received == [], info=f"actor received {received}")
+        S.check("only-the-providers-answer-is-reported", out["ops"] == ["ack"], info=str(out["ops"]))
+    else:
+        S.check("plain-value", received == [5] and out["ops"] == ["ack"])
 
 
 def h18_collision(S):
@@ -280,8 +347,11 @@ HARNESSES = [
                     "payload": "with or without a payload argument", "converter": "Basic / Pydantic"},
             functions=["dependencies/depends.py:Depends.resolve", "dependencies/depends.py:Depends.override", "_processor.py:_Processor.actor_run"],
             covers=["resolved", "provider-failed", "override"]),
-    Harness(name="H18-declaration", scenario=h18_declaration, bounds={"cases": "3 unsupported and 2 supported declarations x 2 converters"},
+    Harness(name="H18-declaration", scenario=h18_declaration, bounds={"cases": "5 unsupported (positional-only, *args, **kwargs dependencies; non-default plain argument) and 2 supported declarations x 2 converters"},
             functions=["dependencies/depends.py:Depends._update_subdependencies", "converter.py:BasicConverter.__init__"], covers=["declared"]),
+    Harness(name="H18-special-values", scenario=h18_special_values,
+            bounds={"provider": "returns an exception instance as its value / answers the message through its MessageDependency / plain; direct or nested under another provider"},
+            functions=["_processor.py:_Processor._actor_run", "dependencies/depends.py:Depends.resolve"], covers=["special-values"]),
     Harness(name="H18-collision", scenario=h18_collision, bounds={"payload": "an entry named like the dependency parameter; actor with or without **kwargs"},
             covers=["collision"]),
 ]
